@@ -1,11 +1,21 @@
 """C11 — Event and Condition: correspondence of prims/EventCond.v with anyio.Event / anyio.Condition on SchedLoop,
 plus model-independent monitors (a queue automaton driven by the observed history).
 
-Case format (shared with EventCond.run_case):  [machine, fast, pinned] + (code, task, n)*
+Case format (shared with EventCond.run_case):  [machine, fast, variant] + (code, task, a, b)*
   machine 0 = Event      codes: 0 wait, 1 set, 3 resume, 4 native cancel, 8 scope cancel
-  machine 1 = Condition  codes: 0 acquire, 1 acquire_nowait, 2 release, 3 resume, 4 native cancel, 5 notify(n),
-                                6 notify_all, 7 wait, 8 scope cancel
-Observation per step:  Event [kind, is_set, tasks_waiting];  Condition [kind, tasks_waiting, locked, owner, lock waiters]
+  machine 1 = Conditions on one shared Lock (a = condition index)
+                         codes: 0 cond.acquire, 1 cond.acquire_nowait, 2 cond.release, 3 resume, 4 native cancel,
+                                5 cond.notify(b), 6 cond.notify_all, 7 cond.wait, 8 scope cancel,
+                                9 lock.acquire, 10 lock.acquire_nowait, 11 lock.release (directly on the shared lock)
+Observation per step:  Event [kind, is_set, tasks_waiting]
+                       Condition [kind, tasks_waiting of cond 0,1,2, locked, owner, lock waiters, late_handover]
+                       (late_handover: 1 iff this step hands a notification to a waiter younger than it - the
+                        model's predicate vs. the queue automaton's verdict on the observed history)
+
+Known finding F18 (`late_handover`): a cancelled-and-notified waiter hands its notification to the head of the
+queue when it resumes, which may be a task that began to wait after the notify call.  The queue automaton stamps
+every wait() with a ticket and every notification with the number of waits started before its notify call; a
+wait() that returns on a notification older than its own ticket is reported as KNOWN-FINDING, never as VIOLATION.
 """
 
 from __future__ import annotations
@@ -21,7 +31,11 @@ DRIVERS = [("eventcond", "EventCond")]
 
 EOPN = {0: "EvWait", 1: "EvSet", 3: "EvResume", 4: "EvCancel", 8: "EvScopeCancel"}
 COPN = {0: "Acquire", 1: "AcqNowait", 2: "Release", 3: "Resume", 4: "Cancel", 5: "Notify", 6: "NotifyAll",
-        7: "Wait", 8: "ScopeCancel"}
+        7: "Wait", 8: "ScopeCancel", 9: "LockAcquire", 10: "LockAcqNowait", 11: "LockRelease"}
+NCONDS = 3
+F18_WHAT = ("Condition.wait(): a cancelled-and-notified waiter passes its notification to the head of the queue when "
+            "it resumes, which can be a task that started waiting after the notify call - that task's wait() returns "
+            "although no notification issued at or after its start selected it (F18, late_handover)")
 
 SCOPE_CANCELLED = "scope-cancelled"
 
@@ -71,6 +85,20 @@ def scoped(fn):
     return cmd
 
 
+def readable_ops(machine, ops):
+    names = EOPN if machine == 0 else COPN
+    out = []
+    for i in range(0, len(ops), 4):
+        c, t, a, b = ops[i:i + 4]
+        if machine == 0 or c in (3, 4, 8, 9, 10, 11):
+            out.append((names.get(c, "?"), t))
+        elif c == 5:
+            out.append((names[c], t, f"cond{a}", b))
+        else:
+            out.append((names.get(c, "?"), t, f"cond{a}"))
+    return out
+
+
 class BaseRun:
     machine = -1
     width = 0
@@ -85,6 +113,7 @@ class BaseRun:
         self.ops: list[int] = []
         self.outs: list[int] = []
         self.mon: list[str] = []
+        self.hits: list[tuple[str, str]] = []      # (kind, message); kind 'late_handover' = known finding F18
         self.flags: set[str] = set()
         self.exempt = False          # a native cancel landed inside Condition.wait()'s shielded re-acquire
         self.enabled_at_end = []
@@ -105,7 +134,7 @@ class BaseRun:
         self._sess.__exit__(*a)
         # the finished run keeps only its recorded history (ops, outs, monitor messages, flags)
         self.world = self._sess = self.ptasks = self.tid_of = None
-        self.cond = self.ev = None
+        self.conds = self.lock = self.ev = None
 
     def run_env_handles(self):
         """Run, once, every ready handle that is not a puppet's step/wake-up (cancel-scope delivery retries)."""
@@ -121,11 +150,22 @@ class BaseRun:
         return [self.machine, 1 if getattr(self, "fast", False) else 0, 0] + self.ops
 
     def readable(self):
-        names = EOPN if self.machine == 0 else COPN
-        return [(names.get(self.ops[i], "?"), self.ops[i + 1], self.ops[i + 2]) for i in range(0, len(self.ops), 3)]
+        return readable_ops(self.machine, self.ops)
+
+    def hit(self, kind, msg):
+        m = f"step {len(self.ops) // 4}: {msg}"
+        self.mon.append(m)
+        self.hits.append((kind, m))
 
     def note(self, msg):
-        self.mon.append(f"step {len(self.ops) // 3}: {msg}")
+        self.hit("other", msg)
+
+    def unexplained(self):
+        """Monitor messages that are not instances of a known finding."""
+        return [m for (k, m) in self.hits if k != "late_handover"]
+
+    def known_classes(self):
+        return {"F18"} if any(k == "late_handover" for (k, _) in self.hits) else set()
 
 
 # =====================================================================================================
@@ -148,16 +188,16 @@ class EventRun(BaseRun):
         en = []
         for t, p in self.world.puppets.items():
             if p.at_decision:
-                en += [(0, t, 0), (1, t, 0)]
+                en += [(0, t, 0, 0), (1, t, 0, 0)]
             else:
                 if self.world.runnable(p):
-                    en.append((3, t, 0))
-                en.append((4, t, 0))
+                    en.append((3, t, 0, 0))
+                en.append((4, t, 0, 0))
                 if p.scope is not None:
-                    en.append((8, t, 0))
+                    en.append((8, t, 0, 0))
         return en
 
-    def do(self, c, t, n=0):
+    def do(self, c, t, a=0, b=0):
         w = self.world
         p = w.puppets.get(t)
         if p is None:
@@ -192,7 +232,7 @@ class EventRun(BaseRun):
         self.run_env_handles()
         k = code_of(out)
         after = self.observe()
-        self.ops += [c, t, n]
+        self.ops += [c, t, 0, 0]
         self.outs += [k] + after
         self.monitor(c, t, k, before, after)
 
@@ -293,68 +333,87 @@ class EventRun(BaseRun):
 
 
 # =====================================================================================================
-#  Condition
+#  Conditions on a shared Lock
 # =====================================================================================================
+ACQ_OPS = (0, 1, 9, 10)
+REL_OPS = (2, 11)
+
+
 class CondRun(BaseRun):
     machine = 1
-    width = 5
+    width = 8
 
-    def __init__(self, ntasks: int, fast: bool):
+    def __init__(self, ntasks: int, fast: bool, nconds: int = 2):
         super().__init__(ntasks)
         self.fast = fast
+        self.nconds = max(1, min(NCONDS, nconds))
 
     def setup(self):
-        self.cond = self.anyio.Condition(self.anyio.Lock(fast_acquire=self.fast))
+        self.lock = self.anyio.Lock(fast_acquire=self.fast)
+        self.conds = [self.anyio.Condition(self.lock) for _ in range(self.nconds)]
         self.holders: set[int] = set()
         self.st: dict[int, dict] = {}      # blocked tasks: kind 'acq' | 'evwait' | 'reacq'
         self.q: list[dict] = []            # the queue automaton: entries of tasks in 'evwait', arrival order
+        self.tickets = 0                   # number of wait() calls started so far (all conditions)
         self.n_issued = 0                  # notifications issued (entries selected by notify / notify_all)
         self.n_consumed = 0
         self.n_nobody = 0                  # passed on with nobody left to take it
         self.n_native_lost = 0             # exempt class
+        self.quiesce_turn = 0
+        self.how_acquired: dict[int, tuple] = {}   # by which route the current holder got the lock
 
     def observe(self):
-        cs = self.cond.statistics()
-        ls = cs.lock_statistics
+        tw = [c.statistics().tasks_waiting for c in self.conds] + [0] * (NCONDS - self.nconds)
+        ls = self.lock.statistics()
         owner = self.tid_of.get(ls.owner.id, 99) if ls.owner is not None else 0
-        return [cs.tasks_waiting, 1 if self.cond.locked() else 0, owner, ls.tasks_waiting]
+        return tw + [1 if self.lock.locked() else 0, owner, ls.tasks_waiting]
 
     def enabled(self):
         en = []
         for t, p in self.world.puppets.items():
             if p.at_decision:
-                en += [(0, t, 0), (1, t, 0), (2, t, 0), (5, t, None), (6, t, 0), (7, t, 0)]
+                for a in range(self.nconds):
+                    en += [(0, t, a, 0), (1, t, a, 0), (2, t, a, 0), (5, t, a, None), (6, t, a, 0), (7, t, a, 0)]
+                en += [(9, t, 0, 0), (10, t, 0, 0), (11, t, 0, 0)]
             else:
                 if self.world.runnable(p):
-                    en.append((3, t, 0))
-                en.append((4, t, 0))
+                    en.append((3, t, 0, 0))
+                en.append((4, t, 0, 0))
                 if p.scope is not None:
-                    en.append((8, t, 0))
+                    en.append((8, t, 0, 0))
         return en
 
-    def do(self, c, t, n=0):
+    def do(self, c, t, a=0, b=0):
         w = self.world
         p = w.puppets.get(t)
-        if p is None:
+        if p is None or not (0 <= a < self.nconds):
             raise Invalid
-        cond = self.cond
+        cond = self.conds[a]
+        lock = self.lock
         before = self.observe()
         run_before = {x: self.runnable(x) for x in self.st}
-        if c in (0, 1, 2, 5, 6, 7):
+        self.late_step = 0
+        if c in (0, 1, 2, 5, 6, 7, 9, 10, 11):
             if not p.at_decision:
                 raise Invalid
             if c == 0:
                 out = w.act(t, scoped(lambda: cond.acquire()))
+            elif c == 9:
+                out = w.act(t, scoped(lambda: lock.acquire()))
             elif c == 7:
                 out = w.act(t, scoped(lambda: cond.wait()))
             else:
                 async def cmd(p):
                     if c == 1:
                         cond.acquire_nowait()
+                    elif c == 10:
+                        lock.acquire_nowait()
                     elif c == 2:
                         cond.release()
+                    elif c == 11:
+                        lock.release()
                     elif c == 5:
-                        cond.notify(n)
+                        cond.notify(b)
                     else:
                         cond.notify_all()
                 out = w.act(t, cmd)
@@ -377,9 +436,9 @@ class CondRun(BaseRun):
         self.run_env_handles()
         k = code_of(out)
         after = self.observe()
-        self.ops += [c, t, n]
-        self.outs += [k] + after
-        self.monitor(c, t, n, k, before, after, run_before)
+        self.ops += [c, t, a, b]
+        self.monitor(c, t, a, b, k, before, after, run_before)
+        self.outs += [k] + after + [self.late_step]
 
     def already_cancelled(self, t):
         e = self.st.get(t)
@@ -390,31 +449,42 @@ class CondRun(BaseRun):
         return bool(e.get("cancel") or e.get("native"))
 
     # ---- the queue automaton and the clause monitors ----
-    def unnotified(self):
-        return [e for e in self.q if not e["notified"]]
+    def unnotified(self, a=None):
+        return [e for e in self.q if not e["notified"] and (a is None or e["c"] == a)]
 
     def gets_lock(self, t, after, how):
         others = self.holders - {t}
         if others:
             self.note(f"{how} returned to {t} while {sorted(others)} hold the lock")
-        if after[2] != t or not after[1]:
-            self.note(f"{how} returned to {t} but the lock owner is {after[2]} (locked={after[1]})")
+        if after[4] != t or not after[3]:
+            self.note(f"{how} returned to {t} but the lock owner is {after[4]} (locked={after[3]})")
         self.holders.add(t)
 
     def pass_on(self, ent):
-        rest = self.unnotified()
+        rest = self.unnotified(ent["c"])
         if rest:
-            rest[0]["notified"] = True
-            rest[0]["via_pass_on"] = True
+            nxt = rest[0]
+            nxt["notified"] = True
+            nxt["via_pass_on"] = True
+            nxt["hz"] = ent["hz"]
             self.flags.add("pass_on")
-            if rest[0]["cancel"]:
+            if nxt["cancel"]:
                 self.flags.add("pass_on_to_cancelled_waiter")
+            if nxt["ticket"] >= ent["hz"]:
+                # F18: the receiver began to wait after the notify call that issued this notification
+                nxt["late"] = True
+                self.late_step = 1
+                self.flags.add("late_handover")
         else:
             self.n_nobody += 1
             self.flags.add("pass_on_to_nobody")
 
-    def monitor(self, c, t, n, k, before, after, run_before):
+    def monitor(self, c, t, a, n, k, before, after, run_before):
         holder = t in self.holders
+        if a > 0 and c in (0, 1, 2, 5, 6, 7):
+            self.flags.add("second_condition")
+        if c in (9, 10, 11):
+            self.flags.add("direct_lock_op")
         if c in (5, 6, 7):
             if not holder:
                 self.flags.add("misuse_by_non_holder")
@@ -425,13 +495,18 @@ class CondRun(BaseRun):
                 for x, r in run_before.items():
                     if self.runnable(x) != r:
                         self.note(f"refused {COPN[c]} by non-holder {t} changed the runnability of task {x}")
-            elif k == 3:
-                self.note(f"{COPN[c]} by the lock holder {t} was refused with RuntimeError")
+            else:
+                how = self.how_acquired.get(t)
+                if how is not None and how != ("cond", a):
+                    self.flags.add("holder_via_other_route")
+                if k == 3:
+                    self.note(f"{COPN[c]} on cond{a} by the lock holder {t} was refused with RuntimeError")
         if c in (5, 6) and holder and k == 0:
-            un = self.unnotified()
+            un = self.unnotified(a)
             want = len(un) if c == 6 else max(min(n, len(un)), 0)
             for ent in un[:want]:
                 ent["notified"] = True
+                ent["hz"] = self.tickets
                 self.n_issued += 1
                 if ent["cancel"]:
                     self.flags.add("notify_after_cancel_same_cycle")
@@ -442,32 +517,40 @@ class CondRun(BaseRun):
                 self.flags.add("notify_zero")
             if c == 5 and 0 < want < len(un):
                 self.flags.add("notify_strict_subset")
+            if want and any(e["c"] != a for e in self.unnotified()):
+                self.flags.add("notify_with_waiters_on_sibling")
         if c == 7 and holder:
             if k == 1:
                 self.holders.discard(t)
                 self.st[t] = {"kind": "evwait"}
-                self.q.append({"t": t, "notified": False, "cancel": False, "via_pass_on": False})
+                self.q.append({"t": t, "c": a, "ticket": self.tickets, "notified": False, "cancel": False,
+                               "via_pass_on": False, "hz": None, "late": False})
+                self.tickets += 1
                 self.flags.add("wait")
                 if len(self.q) >= 3:
                     self.flags.add("three_waiters")
             else:
                 self.note(f"wait() by holder {t} ended at once with kind {k}")
-        if c in (0, 1):
+        if c in ACQ_OPS:
             if holder:
                 if k != 3:
                     self.note(f"re-acquire by holder {t} ended with kind {k}")
             elif k == 0:
                 self.gets_lock(t, after, "acquire")
-            elif k == 1 and c == 0:
-                self.st[t] = {"kind": "acq", "cancel": False}
-            elif k == 4 and c == 1:
+                self.note_route(t, c, a)
+            elif k == 1 and c in (0, 9):
+                self.st[t] = {"kind": "acq", "cancel": False, "route": (c, a)}
+            elif k == 4 and c in (1, 10):
                 pass
             else:
                 self.note(f"{COPN[c]} by non-holder {t} ended with kind {k}")
-        if c == 2:
+        if c in REL_OPS:
             if holder:
                 if k != 0:
                     self.note(f"release by holder {t} refused (kind {k})")
+                how = self.how_acquired.get(t)
+                if how is not None and how != (("cond", a) if c == 2 else ("lock", 0)):
+                    self.flags.add("released_via_other_route")
                 self.holders.discard(t)
             else:
                 if k != 3:
@@ -502,6 +585,7 @@ class CondRun(BaseRun):
                 del self.st[t]
                 if k == 0:
                     self.gets_lock(t, after, "acquire")
+                    self.note_route(t, *e["route"])
                 elif k == 2:
                     if not e["cancel"]:
                         self.note(f"acquire of {t} got CancelledError without a cancel request")
@@ -517,7 +601,8 @@ class CondRun(BaseRun):
                     self.pass_on(ent)
                 if interrupted and not ent["notified"]:
                     self.flags.add("cancelled_waiter_removed")
-                e.update(kind="reacq", exc=interrupted, notified=ent["notified"], native=False)
+                e.update(kind="reacq", exc=interrupted, notified=ent["notified"], native=False, late=ent["late"],
+                         c=ent["c"])
                 if k == 1:
                     self.flags.add("reacquire_blocks")
                 else:
@@ -525,9 +610,10 @@ class CondRun(BaseRun):
             elif e["kind"] == "reacq":
                 self.finish_wait(t, e, k, after)
         # ---- global consistency after every step ----
-        un = self.unnotified()
-        if after[0] != len(un):
-            self.note(f"statistics().tasks_waiting={after[0]} but the queue automaton has {len(un)} un-notified waiters")
+        for x in range(self.nconds):
+            un = self.unnotified(x)
+            if after[x] != len(un):
+                self.note(f"cond{x}.statistics().tasks_waiting={after[x]} but the queue automaton has {len(un)} un-notified waiters")
         for ent in self.q:
             should = ent["notified"] or ent["cancel"]
             if self.runnable(ent["t"]) != should:
@@ -537,8 +623,11 @@ class CondRun(BaseRun):
                     self.note(f"early/spurious wake-up: waiter {ent['t']} is runnable without notification or cancellation")
         if len(self.holders) > 1:
             self.note(f"two holders {sorted(self.holders)}")
-        if self.holders and (not after[1] or after[2] not in self.holders):
-            self.note(f"{sorted(self.holders)} hold the lock by history but locked={after[1]} owner={after[2]}")
+        if self.holders and (not after[3] or after[4] not in self.holders):
+            self.note(f"{sorted(self.holders)} hold the lock by history but locked={after[3]} owner={after[4]}")
+
+    def note_route(self, t, c, a):
+        self.how_acquired[t] = ("cond", a) if c in (0, 1) else ("lock", 0)
 
     def finish_wait(self, t, e, k, after):
         del self.st[t]
@@ -549,21 +638,27 @@ class CondRun(BaseRun):
                 self.note(f"wait() returned to {t} which was never notified")
             if e.get("native"):
                 self.note(f"wait() returned normally to {t} although it was cancelled during the re-acquire")
+            if e.get("late"):
+                self.hit("late_handover",
+                         f"wait() returned to {t} on a notification issued before its wait() began "
+                         f"(handed over by a cancelled waiter; no notify at or after its start selected it)")
             self.n_consumed += 1
             self.flags.add("wait_returned")
             self.gets_lock(t, after, "wait")
+            self.note_route(t, 0, e["c"])
         elif k == 2:
             if e.get("native"):
                 # exempt class (documented scope): native Task.cancel() inside the shielded re-acquire
                 if not e["exc"] and e["notified"]:
                     self.n_native_lost += 1
-                if after[2] == t:
+                if after[4] == t:
                     self.note(f"exempt class, unexpected: {t} owns the lock after a native cancel in the re-acquire")
                 return
             if not e["exc"]:
                 self.note(f"wait() of {t} raised CancelledError although the waiter was not cancelled")
             self.flags.add("wait_cancelled")
             self.gets_lock(t, after, "wait (raising)")
+            self.note_route(t, 0, e["c"])
         else:
             self.note(f"wait() of {t} ended with kind {k}")
 
@@ -588,9 +683,14 @@ class CondRun(BaseRun):
                 continue
             if self.holders:
                 h = sorted(self.holders)[0]
-                if self.q:
-                    self.do(6, h)
-                self.do(2, h)
+                for a in range(self.nconds):
+                    if self.unnotified(a):
+                        self.do(6, h, a, 0)
+                self.quiesce_turn += 1
+                if self.quiesce_turn % 2:
+                    self.do(11, h)
+                else:
+                    self.do(2, h, self.quiesce_turn % self.nconds, 0)
                 continue
             blocked = [t for t, p in self.world.puppets.items() if not p.at_decision]
             if not blocked:
@@ -603,13 +703,17 @@ class CondRun(BaseRun):
                 continue
             idle = [t for t, p in self.world.puppets.items() if p.at_decision]
             if idle:
-                self.do(0, idle[0])
+                self.quiesce_turn += 1
+                if self.quiesce_turn % 2:
+                    self.do(9, idle[0])
+                else:
+                    self.do(0, idle[0], self.quiesce_turn % self.nconds, 0)
             else:
                 self.do(4, blocked[0])
         self.conservation()
         obs = self.observe()
-        if obs != [0, 0, 0, 0]:
-            self.note(f"not pristine after quiescence: tasks_waiting/locked/owner/lock waiters={obs}")
+        if obs != [0] * 6:
+            self.note(f"not pristine after quiescence: tasks_waiting x3/locked/owner/lock waiters={obs}")
         if self.world.loop.errors:
             self.note(f"loop errors: {self.world.loop.errors[:2]}")
 
@@ -617,20 +721,20 @@ class CondRun(BaseRun):
 # =====================================================================================================
 #  running, generating, shrinking
 # =====================================================================================================
-def make_run(machine: int, ntasks: int, fast: bool):
-    return EventRun(ntasks) if machine == 0 else CondRun(ntasks, fast)
+def make_run(machine: int, ntasks: int, fast: bool, nconds: int = 2):
+    return EventRun(ntasks) if machine == 0 else CondRun(ntasks, fast, nconds)
 
 
 def run_script(machine, ntasks, fast, flat_ops, quiesce=True, tolerate_invalid=False, alphabet=None,
-               skip_invalid=False):
+               skip_invalid=False, nconds=2):
     """Replay a flat op list on the real implementation.  skip_invalid: ops that are not possible in the current
     state are dropped (used by the shrinker); r.script holds the ops that were really executed."""
-    with make_run(machine, ntasks, fast) as r:
+    with make_run(machine, ntasks, fast, nconds) as r:
         r.invalid = False
         try:
-            for i in range(0, len(flat_ops), 3):
+            for i in range(0, len(flat_ops), 4):
                 try:
-                    r.do(flat_ops[i], flat_ops[i + 1], flat_ops[i + 2])
+                    r.do(*flat_ops[i:i + 4])
                 except Invalid:
                     if not skip_invalid:
                         raise
@@ -649,44 +753,109 @@ def run_script(machine, ntasks, fast, flat_ops, quiesce=True, tolerate_invalid=F
 NOTIFY_NS = [0, 1, 1, 1, 2, 2, 3, 5, -1]
 
 
+def walk(r: "CondRun", rng: random.Random, nsteps: int, wcancel, wscope, misuse, wdirect, wsib):
+    for _ in range(nsteps):
+        en = r.enabled()
+        ws = []
+        for (c, t, a, b) in en:
+            hold = t in r.holders
+            sib = wsib if a > 0 else 1.0
+            if c == 0:
+                w = (0.1 if hold else 5) * sib
+            elif c == 9:
+                w = (0.05 if hold else 5) * wdirect
+            elif c == 1:
+                w = (0.05 if hold else 1.0) * sib
+            elif c == 10:
+                w = (0.03 if hold else 1.0) * wdirect
+            elif c == 2:
+                w = (1.5 if hold else misuse) * sib
+            elif c == 11:
+                w = (1.5 if hold else misuse) * wdirect
+            elif c == 5:
+                w = (3 if hold else misuse) * sib
+            elif c == 6:
+                w = (1 if hold else misuse) * sib
+            elif c == 7:
+                w = (5 if hold else misuse) * sib
+            elif c == 3:
+                w = 5
+            elif c == 4:
+                kind = r.st.get(t, {}).get("kind")
+                w = wcancel * (0.12 if kind == "reacq" else 1.0)
+                if r.already_cancelled(t):
+                    w *= 0.08
+            else:
+                w = wscope * (0.15 if r.already_cancelled(t) else 1.0)
+            ws.append(w)
+        c, t, a, b = rng.choices(en, ws)[0]
+        if b is None:
+            b = rng.choice(NOTIFY_NS)
+        r.do(c, t, a, b)
+
+
 def random_cond_case(rng: random.Random, nsteps: int):
     fast = rng.random() < 0.3
     ntasks = rng.choice([2, 3, 3, 4, 4, 5, 6])
-    wcancel = rng.choice([0.3, 1.5, 4])
-    wscope = rng.choice([0.0, 0.5, 2.5])
-    misuse = rng.choice([0.03, 0.15])
-    with CondRun(ntasks, fast) as r:
-        for _ in range(nsteps):
-            en = r.enabled()
-            ws = []
-            for (c, t, n) in en:
-                hold = t in r.holders
-                if c == 0:
-                    w = 0.1 if hold else 5
-                elif c == 1:
-                    w = 0.05 if hold else 1.0
-                elif c == 2:
-                    w = 1.5 if hold else misuse
-                elif c == 5:
-                    w = 3 if hold else misuse
-                elif c == 6:
-                    w = 1 if hold else misuse
-                elif c == 7:
-                    w = 5 if hold else misuse
-                elif c == 3:
-                    w = 5
-                elif c == 4:
-                    kind = r.st.get(t, {}).get("kind")
-                    w = wcancel * (0.12 if kind == "reacq" else 1.0)
-                    if r.already_cancelled(t):
-                        w *= 0.08
-                else:
-                    w = wscope * (0.15 if r.already_cancelled(t) else 1.0)
-                ws.append(w)
-            c, t, n = rng.choices(en, ws)[0]
-            if n is None:
-                n = rng.choice(NOTIFY_NS)
-            r.do(c, t, n)
+    nconds = rng.choice([1, 2, 2, 2, 3])
+    with CondRun(ntasks, fast, nconds) as r:
+        walk(r, rng, nsteps, wcancel=rng.choice([0.3, 1.5, 4]), wscope=rng.choice([0.0, 0.5, 2.5]),
+             misuse=rng.choice([0.03, 0.15]), wdirect=rng.choice([0.0, 0.3, 1.0]), wsib=rng.choice([0.3, 1.0]))
+        r.script = list(r.ops)
+        r.quiesce()
+        return r
+
+
+def f18_case(rng: random.Random):
+    """Directed schedule for the hand-over clause: some waiters, one of them cancelled in the same cycle as the
+    notification that selects it (before or after), the notifier releases, a LATE task starts waiting before the
+    cancelled waiter resumes.  Whether the hand-over reaches an older waiter (legitimate) or only LATE (finding
+    F18) depends on the drawn notify argument."""
+    fast = rng.random() < 0.4
+    nconds = rng.choice([1, 2])
+    a = rng.randrange(nconds)
+    nw = rng.choice([1, 2, 2, 3])
+    with CondRun(nw + 3, fast, nconds) as r:
+        def acquire(t):
+            route = rng.choice([0, 0, 9])
+            r.do(route, t, a if route == 0 else 0, 0)
+            if t not in r.holders:
+                r.do(3, t)
+
+        def script():
+            for t in range(1, nw + 1):
+                acquire(t)
+                r.do(7, t, a, 0)
+            n = nw + 1
+            acquire(n)
+            victim = rng.randrange(1, nw + 1)
+            how = rng.choice(["scope_before", "native_before", "native_after"])
+            if how == "scope_before":
+                r.do(8, victim)
+            elif how == "native_before":
+                r.do(4, victim)
+            if rng.random() < 0.5:
+                r.do(6, n, a, 0)
+            else:
+                r.do(5, n, a, rng.choice([victim, victim, nw, nw + 1]))
+            ent = next((x for x in r.q if x["t"] == victim), None)
+            if how == "native_after" and ent is not None and ent["notified"]:
+                r.do(4, victim)
+            if rng.random() < 0.5:
+                r.do(2, n, a, 0)
+            else:
+                r.do(11, n)
+            late = nw + 2
+            acquire(late)
+            r.do(7, late, a, 0)
+            if r.runnable(victim):
+                r.do(3, victim)
+
+        try:
+            script()
+        except Invalid:
+            pass        # the implementation under test left the scripted path (only happens on a changed tree)
+        walk(r, rng, rng.choice([0, 2, 6]), wcancel=0.5, wscope=0.3, misuse=0.05, wdirect=0.3, wsib=0.5)
         r.script = list(r.ops)
         r.quiesce()
         return r
@@ -701,64 +870,91 @@ def random_event_case(rng: random.Random, nsteps: int):
         for _ in range(nsteps):
             en = r.enabled()
             ws = [{0: 4, 1: wset, 3: 4, 4: wcancel, 8: wscope}[c]
-                  * (0.1 if c in (4, 8) and r.st.get(t, {}).get("cancel") else 1.0) for (c, t, n) in en]
-            c, t, n = rng.choices(en, ws)[0]
-            r.do(c, t, n)
+                  * (0.1 if c in (4, 8) and r.st.get(t, {}).get("cancel") else 1.0) for (c, t, a, b) in en]
+            c, t, a, b = rng.choices(en, ws)[0]
+            r.do(c, t, a, b)
         r.script = list(r.ops)
         r.quiesce()
         return r
 
 
-def exhaustive(machine, ntasks, depth, fast, alphabet):
+def exhaustive(machine, ntasks, depth, fast, alphabet, nconds=1):
     """All op sequences up to `depth` over `alphabet(run)` (a subset of the ops the implementation enables);
     DFS by replay on the real implementation."""
     results = []
 
     def rec(prefix):
-        leaf = len(prefix) // 3 >= depth
-        r = run_script(machine, ntasks, fast, prefix, quiesce=leaf, alphabet=alphabet)
+        leaf = len(prefix) // 4 >= depth
+        r = run_script(machine, ntasks, fast, prefix, quiesce=leaf, alphabet=alphabet, nconds=nconds)
         en = r.enabled_at_end
         if leaf:
             results.append(r)
             return
-        used = set(prefix[1::3])
+        used = set(prefix[1::4])
         fresh = min(set(range(1, ntasks + 1)) - used, default=None)
         any_child = False
-        for (c, t, n) in en:
+        for (c, t, a, b) in en:
             if t not in used and t != fresh:
                 continue          # symmetry: a fresh task id may only be the smallest unused one
             any_child = True
-            rec(prefix + [c, t, n])
+            rec(prefix + [c, t, a, b])
         if not any_child:
-            results.append(run_script(machine, ntasks, fast, prefix, quiesce=True))
+            results.append(run_script(machine, ntasks, fast, prefix, quiesce=True, nconds=nconds))
 
     rec([])
     return results
 
 
 def cond_alphabet(r: CondRun):
-    """Disciplined use plus one misuse op per non-holder."""
+    """One condition: disciplined use plus one misuse op per non-holder."""
     out = []
-    for (c, t, n) in r.enabled():
+    for (c, t, a, b) in r.enabled():
+        if a != 0:
+            continue
         hold = t in r.holders
         if c == 0 and not hold:
-            out.append((0, t, 0))
+            out.append((0, t, 0, 0))
         elif c == 2 and hold:
-            out.append((2, t, 0))
+            out.append((2, t, 0, 0))
         elif c == 5:
             if hold:
-                out += [(5, t, 1), (5, t, 2)]
+                out += [(5, t, 0, 1), (5, t, 0, 2)]
             elif r.q:
-                out.append((5, t, 1))
+                out.append((5, t, 0, 1))
         elif c == 7 and hold:
-            out.append((7, t, 0))
+            out.append((7, t, 0, 0))
         elif c in (3, 4):
-            out.append((c, t, 0))
+            out.append((c, t, 0, 0))
+    return out
+
+
+def shared_alphabet(r: CondRun):
+    """Two conditions on one lock and direct lock use: acquire through cond0 or the lock, release through cond1 or
+    the lock, wait / notify(1) on either condition, by holders and (notify) by non-holders."""
+    out = []
+    for (c, t, a, b) in r.enabled():
+        hold = t in r.holders
+        if c == 0 and a == 0 and not hold:
+            out.append((0, t, 0, 0))
+        elif c == 9 and not hold:
+            out.append((9, t, 0, 0))
+        elif c == 2 and a == 1 and hold:
+            out.append((2, t, 1, 0))
+        elif c == 11 and hold:
+            out.append((11, t, 0, 0))
+        elif c == 5 and a in (0, 1):
+            if hold or r.q:
+                out.append((5, t, a, 1))
+        elif c == 7 and a in (0, 1):
+            if hold or (a == 0 and r.q):
+                out.append((7, t, a, 0))
+        elif c in (3, 4):
+            out.append((c, t, 0, 0))
     return out
 
 
 def event_alphabet(r: EventRun):
-    return [(c, t, n) for (c, t, n) in r.enabled() if c != 8]
+    return [x for x in r.enabled() if x[0] != 8]
 
 
 def shrink(run, still_bad, budget=600):
@@ -768,22 +964,22 @@ def shrink(run, still_bad, budget=600):
     improved = True
     while improved and budget > 0:
         improved = False
-        i = len(ops) - 3
+        i = len(ops) - 4
         while i >= 0 and budget > 0:
-            cand = ops[:i] + ops[i + 3:]
+            cand = ops[:i] + ops[i + 4:]
             budget -= 1
             try:
                 r2 = run_script(run.machine, run.ntasks, getattr(run, "fast", False), cand, quiesce=True,
-                                skip_invalid=True)
+                                skip_invalid=True, nconds=getattr(run, "nconds", 1))
             except Exception:  # noqa: BLE001
                 r2 = None
             if r2 is not None and len(r2.script) < len(ops) and still_bad(r2):
                 ops = list(r2.script)
                 best = r2
                 improved = True
-                i = min(i, len(ops)) - 3
+                i = min(i, len(ops)) - 4
             else:
-                i -= 3
+                i -= 4
     return best, ops
 
 
@@ -792,13 +988,12 @@ def _nodigits(m: str) -> str:
 
 
 def replay_dict(run, ops=None, **extra):
-    names = EOPN if run.machine == 0 else COPN
     ops = list(run.ops if ops is None else ops)
-    d = {"machine": "Event" if run.machine == 0 else "Condition", "ntasks": run.ntasks,
+    d = {"machine": run.machine, "machine_name": "Event" if run.machine == 0 else "Condition",
+         "ntasks": run.ntasks, "nconds": getattr(run, "nconds", 1),
          "fast": bool(getattr(run, "fast", False)), "ops": ops,
-         "ops_readable": [(names.get(ops[i], "?"), ops[i + 1], ops[i + 2]) for i in range(0, len(ops), 3)],
-         "how_to_replay": "PYTHONPATH=/repo/src:/verif/harness python -c \"import c11; r=c11.run_script(machine, ntasks, fast, ops); print(r.mon)\"  (after the listed ops the harness drives the tasks to quiescence)"}
-    d["machine_code"] = run.machine
+         "ops_readable": readable_ops(run.machine, ops),
+         "how_to_replay": "bin/replay <this file>   or   PYTHONPATH=/repo/src:/verif/harness python -c \"import c11; r=c11.run_script(machine, ntasks, fast, ops, nconds=nconds); print(r.mon)\"  (after the listed ops the harness drives the tasks to quiescence)"}
     d.update(extra)
     return d
 
@@ -809,19 +1004,38 @@ def load_corpus():
     if d.is_dir():
         for f in sorted(d.glob("*.json")):
             c = json.loads(f.read_text())
-            r = run_script(c["machine"], c["ntasks"], bool(c.get("fast", False)), c["ops"], tolerate_invalid=True)
+            r = run_script(c["machine"], c["ntasks"], bool(c.get("fast", False)), c["ops"], tolerate_invalid=True,
+                           nconds=c.get("nconds", 2))
             r.corpus_name = f.name
             runs.append(r)
     return runs
 
 
+def replay(path) -> int:
+    """bin/replay C11 <file>: re-execute a stored case on the current tree and on the model."""
+    d = json.loads(open(path).read())
+    c = d.get("case") if d.get("kind") == "tie" and d.get("case") else d
+    r = run_script(c["machine"], c["ntasks"], bool(c.get("fast", False)), c["ops"], tolerate_invalid=True,
+                   nconds=c.get("nconds", 2))
+    exe = core.build_driver("eventcond", "EventCond")
+    m = core.run_driver(exe, [r.case()])[0]
+    w = r.width
+    rd = r.readable()
+    for i, op in enumerate(rd):
+        print(i, op, "impl", r.outs[i * w:(i + 1) * w], "model", m[i * w:(i + 1) * w],
+              "" if r.outs[i * w:(i + 1) * w] == m[i * w:(i + 1) * w] else "   <-- differ")
+    print("monitor messages:", *(r.mon or ["none"]), sep="\n  ")
+    print("known-finding classes:", sorted(r.known_classes()))
+    return 1 if (r.unexplained() or r.outs != m) else 0
+
+
 def check(tier: str) -> int:
     rep = core.Report("C11", tier)
     rep.assumptions = core.TRUSTED_BASE_COMMON + [
-        "model prims/EventCond.v hand-written from _asyncio.py:1853-1875 (Event), CPython 3.12.1 asyncio/locks.py:155-215, _core/_synchronization.py:276-385 (Condition) and embedding prims/Lock.v",
+        "model prims/EventCond.v hand-written from _asyncio.py:1853-1875 (Event), CPython 3.12.1 asyncio/locks.py:155-215, _core/_synchronization.py class Condition (HEAD: holder test asks the lock) and embedding prims/Lock.v; any number of Conditions on ONE shared Lock plus direct lock.acquire/acquire_nowait/release by any task",
         "cancellation: native Task.cancel() on blocked tasks (both while the awaited future is pending and after it was resolved) and AnyIO CancelScope.cancel() of a scope wrapped around the blocking call",
-        "input domain: the Condition's Lock is private to it (every acquire/release goes through the Condition); a Lock shared with other Conditions or released directly is outside the model (observation O2: the holder check uses a per-condition record, not the lock's owner)",
-        "documented scope: a NATIVE Task.cancel() landing inside Condition.wait()'s shielded re-acquire makes wait() raise without the lock and drops the notification; the C11 theorems carry the hypothesis `clean` (no such op) and the monitors exempt exactly these histories (AnyIO cancellation cannot do this: shield)",
+        "documented scope: a NATIVE Task.cancel() landing inside Condition.wait()'s shielded re-acquire makes wait() raise without the lock and drops the notification; the C11 theorems carry the hypothesis `clean_run` (no such op) and the monitors exempt exactly these histories (AnyIO cancellation cannot do this: shield)",
+        "known finding F18 (late_handover): the strong clause C11_notified_only_full is proved under the hypothesis no_late_handover and refuted without it (cond_late_handover_refuted); the monitor reports such histories as KNOWN-FINDING",
     ]
     t_start = time.time()
     phases = {}
@@ -837,16 +1051,22 @@ def check(tier: str) -> int:
         if getattr(r, "invalid", False):
             rep.notes.append(f"corpus case {r.corpus_name} is no longer executable as recorded")
     quick = tier == "quick"
-    n_cond = 900 if quick else 24000
-    n_event = 250 if quick else 5000
+    n_cond = 800 if quick else 24000
+    n_f18 = 150 if quick else 4000
+    n_event = 220 if quick else 5000
     for _ in range(n_cond):
         runs.append(random_cond_case(rng, rng.choice([8, 12, 18, 26, 40, 60])))
+    for _ in range(n_f18):
+        runs.append(f18_case(rng))
     for _ in range(n_event):
         runs.append(random_event_case(rng, rng.choice([5, 8, 12, 20, 30])))
     if quick:
-        ex = exhaustive(1, 2, 7, False, cond_alphabet) + exhaustive(0, 2, 5, False, event_alphabet)
+        ex = (exhaustive(1, 2, 6, False, cond_alphabet) + exhaustive(1, 2, 5, False, shared_alphabet, nconds=2)
+              + exhaustive(0, 2, 5, False, event_alphabet))
     else:
         ex = (exhaustive(1, 3, 8, False, cond_alphabet) + exhaustive(1, 2, 8, True, cond_alphabet)
+              + exhaustive(1, 3, 6, False, shared_alphabet, nconds=2)
+              + exhaustive(1, 2, 7, True, shared_alphabet, nconds=2)
               + exhaustive(0, 3, 6, False, event_alphabet))
     n_ex = len(ex)
     runs += ex
@@ -864,11 +1084,15 @@ def check(tier: str) -> int:
             k = next((i for i in range(min(len(e), len(m))) if e[i] != m[i]), min(len(e), len(m)))
             disagreements.append((r, {"impl": e[(k // w) * w:(k // w) * w + w], "model": m[(k // w) * w:(k // w) * w + w],
                                       "first_diff_step": k // w}))
-    monitor_hits = [(r, msg) for r in runs for msg in r.mon]
+    # monitor hits: instances of the known finding F18 are separated from everything else
+    monitor_hits = [(r, msg) for r in runs for msg in r.unexplained()]
+    n_known = sum(1 for r in runs if r.known_classes())
+    if n_known:
+        rep.known_finding(F18_WHAT)
 
     # kernel-checked sample (always includes the corpus)
     sample_n = 40 if quick else 400
-    idx = [i for i in range(n_corpus, len(cases)) if quick is False or len(cases[i]) <= 3 + 3 * 30]
+    idx = [i for i in range(n_corpus, len(cases)) if quick is False or len(cases[i]) <= 3 + 4 * 30]
     rng.shuffle(idx)
     idx = list(range(n_corpus)) + idx[:sample_n]
     phases["model_driver"] = round(time.time() - t_start, 1)
@@ -879,13 +1103,13 @@ def check(tier: str) -> int:
     reported = set()
     for r, msg in monitor_hits:
         key = _nodigits(msg.split(": ", 1)[-1])[:40]
-        if key in reported or len(reported) >= 4:
+        if key in reported or len(reported) >= 6:
             continue
         reported.add(key)
         want = key[:28]
-        best, ops = shrink(r, lambda x: any(want in _nodigits(m) for m in x.mon))
-        rep.violation(next((m for m in best.mon if want in _nodigits(m)), msg),
-                      replay_dict(best, ops, kind="monitor", all_monitor_messages=best.mon[:6]))
+        best, ops = shrink(r, lambda x: any(want in _nodigits(m) for m in x.unexplained()))
+        rep.violation(next((m for m in best.unexplained() if want in _nodigits(m)), msg),
+                      replay_dict(best, ops, kind="monitor", all_monitor_messages=best.unexplained()[:6]))
     tie_broken = []
     if not proofs_ok:
         tie_broken.append("proof obligation: " + str(rep.coverage.get("proof_failure", {}).get("where")))
@@ -913,7 +1137,7 @@ def check(tier: str) -> int:
                         "ops_including_quiescence": best.readable()}
                 d = replay_dict(best, ops, **info)
             except Exception:  # noqa: BLE001
-                upto = (info["first_diff_step"] + 1) * 3
+                upto = (info["first_diff_step"] + 1) * 4
                 d = replay_dict(r, r.ops[:upto], **info)
         rep.violation("; ".join(tie_broken), {"kind": "tie", "broken": tie_broken, "case": d,
                                               "vm_log": vm_log[-800:] if not vm_ok else ""}, no_input=True)
@@ -924,15 +1148,18 @@ def check(tier: str) -> int:
             flags[f] = flags.get(f, 0) + 1
     interesting = {"pass_on", "pass_on_to_nobody", "notify_after_cancel_same_cycle", "cancel_after_notify_same_cycle",
                    "cancel_before_notify", "reacquire_blocks", "notify_strict_subset", "set_with_waiters",
-                   "cancel_before_set", "cancel_after_set", "scope_cancel_in_reacquire", "misuse_by_non_holder"}
+                   "cancel_before_set", "cancel_after_set", "scope_cancel_in_reacquire", "misuse_by_non_holder",
+                   "holder_via_other_route", "released_via_other_route", "late_handover",
+                   "notify_with_waiters_on_sibling"}
     distinct = len({tuple(c) for c, r in zip(cases, runs) if r.flags & interesting})
     opcount = {}
     for r in runs:
         names = EOPN if r.machine == 0 else COPN
-        for i in range(0, len(r.ops), 3):
+        for i in range(0, len(r.ops), 4):
             opcount[names[r.ops[i]]] = opcount.get(names[r.ops[i]], 0) + 1
-    sizes = sorted(len(r.ops) // 3 for r in runs)
+    sizes = sorted(len(r.ops) // 4 for r in runs)
     n_exempt = sum(1 for r in runs if r.exempt)
+    known_example = next((r for r in sorted(runs, key=lambda x: len(x.ops)) if r.known_classes()), None)
     rep.coverage.update({
         "trusted_base": rep.assumptions,
         "evaluations": len(runs),
@@ -940,7 +1167,7 @@ def check(tier: str) -> int:
         "traces_validated_against_impl": len(runs) - len(disagreements),
         "disagreements_checked": len(disagreements),
         "distinct_nontrivial": distinct,
-        "rule": "random walk over the ops the implementation enables (idle task: acquire/acquire_nowait/release/notify(n in -1..5)/notify_all/wait resp. Event wait/set, with a low-weight stream of non-holder misuse; blocked task: resume if its wake-up is queued, native Task.cancel(), cancel of the AnyIO scope around the call), 2-6 tasks, Lock fast_acquire on/off, then driven to quiescence; plus exhaustive enumeration (DFS by replay) of disciplined-use sequences with one misuse op; non-trivial = reaches one of " + ", ".join(sorted(interesting)),
+        "rule": "random walk over the ops the implementation enables (idle task: acquire/acquire_nowait/release/notify(n in -1..5)/notify_all/wait on any of 1-3 Conditions sharing one Lock, lock.acquire/acquire_nowait/release directly, resp. Event wait/set, with a low-weight stream of non-holder misuse; blocked task: resume if its wake-up is queued, native Task.cancel(), cancel of the AnyIO scope around the call), 2-6 tasks, Lock fast_acquire on/off, then driven to quiescence; a directed family for the hand-over clause (waiter cancelled in the same cycle as its notification, notifier releases, a late task starts waiting before the cancelled waiter resumes); plus exhaustive enumeration (DFS by replay) of disciplined-use sequences with one misuse op, on one condition and on two conditions + direct lock use; non-trivial = reaches one of " + ", ".join(sorted(interesting)),
         "exhaustive_small_scope_cases": n_ex,
         "corpus_cases": n_corpus,
         "reached": flags,
@@ -950,6 +1177,10 @@ def check(tier: str) -> int:
         "event_cases": sum(1 for r in runs if r.machine == 0),
         "exempt_native_cancel_in_reacquire_cases": n_exempt,
         "exempt_note": "cases in which a native Task.cancel() landed inside Condition.wait()'s shielded re-acquire: correspondence still checked, monitors adjusted (wait() raising without the lock / dropped notification not reported)",
+        "known_finding_cases": {"F18": n_known},
+        "known_finding_example": (replay_dict(known_example, known_example.script,
+                                              messages=[m for (k, m) in known_example.hits if k == "late_handover"])
+                                  if known_example else None),
         "vm_compute_sample": len(idx),
         "vm_compute_ok": vm_ok,
         "model_rejected_ops": rejected,
@@ -964,6 +1195,8 @@ def check(tier: str) -> int:
             "cancelled_waiter_removed", "reacquire_blocks", "wait_returned", "wait_cancelled",
             "misuse_by_non_holder", "scope_cancel_before_notify", "scope_cancel_after_notify",
             "scope_cancel_in_reacquire", "native_cancel_in_reacquire",
+            "second_condition", "direct_lock_op", "holder_via_other_route", "released_via_other_route",
+            "notify_with_waiters_on_sibling", "late_handover",
             "set_with_waiters", "wait_on_set_event", "wait_on_unset_event", "cancel_before_set", "cancel_after_set",
             "set_after_cancel_same_cycle", "scope_cancel_effective", "scope_cancel_after_release"]
     for n in need:
